@@ -278,7 +278,7 @@ pub fn build_top_level_matcher(
     config: &mut Config,
 ) -> Result<Box<dyn Matcher>, Box<dyn Error>> {
     let mut regex_type = regex::RegexType::default();
-    let (_, top_level_matcher) = (build_matcher_tree(args, config, 0, false, &mut regex_type))?;
+    let (_, top_level_matcher) = (build_matcher_tree(args, config, 0, false, &mut regex_type, 0))?;
 
     // if the matcher doesn't have any side-effects, then we default to printing
     if !top_level_matcher.has_side_effects() {
@@ -441,7 +441,18 @@ fn build_matcher_tree(
     // -regextype is positional and global: it also applies inside and after
     // parentheses, so the current type is shared by all nesting levels.
     regex_type: &mut regex::RegexType,
+    // How many parentheses are open around this (sub-)expression.
+    nesting: usize,
 ) -> Result<(usize, Box<dyn Matcher>), Box<dyn Error>> {
+    // Every level of parentheses is a level of recursion, here and again when
+    // the expression is evaluated: refuse what would overflow the stack.
+    const MAX_NESTING: usize = 100;
+    if nesting > MAX_NESTING {
+        return Err(From::from(format!(
+            "invalid expression: parentheses are nested more than {MAX_NESTING} levels deep"
+        )));
+    }
+
     let mut top_level_matcher = ListMatcherBuilder::new();
 
     // can't use getopts for a variety or reasons:
@@ -843,7 +854,7 @@ fn build_matcher_tree(
             }
             "(" => {
                 let (new_arg_index, sub_matcher) =
-                    build_matcher_tree(args, config, i + 1, true, regex_type)?;
+                    build_matcher_tree(args, config, i + 1, true, regex_type, nesting + 1)?;
                 i = new_arg_index;
                 Some(sub_matcher)
             }
